@@ -47,7 +47,7 @@ prop(
     ],
     floors={"any": {"model_deliveries": 5000, "model_error_Method": 100, "model_error_Uri": 100, "model_error_Version": 100,
                     "model_error_InvalidRequest": 100, "model_error_Header": 100, "model_error_SizeLimit": 50,
-                    "double_corruptions": 100}},
+                    "double_corruptions": 100, "segmented_runs_with_empty_reads_between": 1000}},
 )
 
 prop(
@@ -241,7 +241,7 @@ prop(
     exhaustive={"quick": "19-symbol strings up to length 5; URIs up to 7 symbols over 9 symbols; all single-byte edits of the 7 canonical tokens",
                 "thorough": "19-symbol strings up to length 5; URIs up to 10 symbols over 9 symbols (3.9G); all single-byte edits of the 7 canonical tokens"},
     floors={"any": {"method_strings_enumerated": 2000000, "token_edits": 20000, "tokens_accepted": 100, "uris_with_nonempty_abs_path": 100000,
-                    "uris_absolute_form_with_path": 100, "status_codes": 11, "round_trips": 7}},
+                    "uris_absolute_form_with_path": 100, "status_codes": 11, "round_trips": 7, "raw_uris_with_invalid_utf8": 500}},
 )
 
 prop(
